@@ -43,6 +43,14 @@ type c08Run struct {
 func newC08Run(rep *Report, seed uint64, id int, nDenoms int) *c08Run {
 	x := newC04Run(rep, seed, id, int(seed%7), nDenoms, false)
 	y := &c08Run{c04Run: x, donations: map[string]*big.Int{}, initial: map[string]*big.Int{}, l2block: 1}
+	{ // a second bridge (id B+1): operations on it must not disturb the equation of bridge B (system step Other)
+		e1 := x.e1
+		cfg := &L1Config{Proposer: e1.User(4).Str, Challenger: e1.User(5).Str, Period: 3 * sec, Interval: 10 * sec, Start: 1, Submitter: e1.User(4).Str, Chain: 1, Meta: []byte("other")}
+		e1.Resolve(e1.User(3).Str)
+		if res := x.l1(L1Op{Kind: "create", Sender: e1.User(3).Str, Config: cfg}); !res.OK {
+			panic("create second bridge failed: " + res.Err)
+		}
+	}
 	for _, d := range x.bases {
 		y.donations[d] = big.NewInt(0)
 		t := big.NewInt(0)
@@ -271,6 +279,31 @@ func (y *c08Run) role(proposer bool) string {
 	return s
 }
 
+// operations on the OTHER bridge (system step Other): deposits into it, proposals and deletions on it
+func (y *c08Run) stepOther() {
+	r, e1 := y.r, y.e1
+	ob := y.B + 1
+	switch r.Intn(3) {
+	case 0:
+		sender := y.l1Sender()
+		e1.Resolve(sender)
+		res := y.l1(L1Op{Kind: "deposit", Sender: sender, Bridge: ob, To: "other-chain-recipient", Denom: y.bases[r.Intn(len(y.bases))], Amt: big.NewInt(int64(r.Intn(5000)))})
+		y.rep.Hist("other-deposit:" + okStr(res.OK))
+	case 1:
+		idx, _ := e1.K.GetNextOutputIndex(e1.Ctx, ob)
+		y.l2block += 1 + uint64(r.Intn(3))
+		res := y.l1(L1Op{Kind: "propose", Sender: e1.User(4).Str, Bridge: ob, Idx: idx, L2: y.l2block, Root: r.Bytes(32)})
+		y.rep.Hist("other-propose:" + okStr(res.OK))
+	default:
+		idx, _ := e1.K.GetNextOutputIndex(e1.Ctx, ob)
+		if idx > 1 {
+			res := y.l1(L1Op{Kind: "delete", Sender: e1.User(5).Str, Bridge: ob, Idx: idx - 1})
+			y.rep.Hist("other-delete:" + okStr(res.OK))
+		}
+	}
+	y.check("operation on another bridge")
+}
+
 // L1 role / config messages (system step Admin1): they must not disturb the equation
 func (y *c08Run) stepAdmin() {
 	r, e1 := y.r, y.e1
@@ -434,6 +467,8 @@ func (y *c08Run) drain() {
 		for _, u := range e1.Users {
 			outside.Add(outside, e1.BK.GetBalance(e1.Ctx, u.Addr, d).Amount.BigInt())
 		}
+		// the other bridge's escrow also holds L1 value outside OUR escrow
+		outside.Add(outside, e1.BK.GetBalance(e1.Ctx, ophosttypes.BridgeAddress(y.B+1), d).Amount.BigInt())
 		tot := new(big.Int).Add(outside, want)
 		if tot.Cmp(y.initial[d]) != 0 {
 			y.viol(len(y.c1.Ops)-1, "C08:holdings-not-conserved", fmt.Sprintf("%s: held on L1 outside the escrow %s + L2 supply + donations + unclaimable %s != initial L1 total %s", d, outside, want, y.initial[d]))
@@ -457,7 +492,7 @@ func genC08(seed uint64, tier string, outdir string) *Report {
 		r := y.r
 		nSteps := 200 + r.Intn(201)
 		for i := 0; i < nSteps; i++ {
-			switch r.Weighted([]int{22, 22, 14, 5, 4, 6, 3, 8, 12, 4, 3}) {
+			switch r.Weighted([]int{22, 22, 14, 5, 4, 6, 3, 8, 12, 4, 3, 4}) {
 			case 0:
 				amt := c04Amount(r)
 				if r.Chance(85) {
@@ -495,6 +530,8 @@ func genC08(seed uint64, tier string, outdir string) *Report {
 				}
 			case 10:
 				y.stepAdmin()
+			case 11:
+				y.stepOther()
 			}
 		}
 		y.drain()
